@@ -19,7 +19,8 @@ class CallMixin:
     # ---- contract lookup ------------------------------------------------------------------------
     def short_name(self, fi: FuncInfo) -> str:
         if fi.kind == "slice":
-            return f"{fi.cls.name}.{fi.qualname.rsplit('.', 1)[-1]}" if fi.cls else fi.qualname
+            base, sl = fi.qualname.split("@", 1)
+            return f"{fi.cls.name}.{base.rsplit('.', 1)[-1]}@{sl}" if fi.cls else fi.qualname
         suffix = ".fset" if fi.kind == "setter" else ""
         if fi.cls is not None:
             return f"{fi.cls.name}.{fi.node.name}{suffix}"
